@@ -122,10 +122,12 @@ CLAIMS = {
              "optional clauses (wf/order, pairwise feasibility by z3); an incomplete builder renders '' (wf/empty); "
              "builder methods addressing different clauses satisfy Bernstein's conditions on the read/write sets of "
              "their real bodies (commute/reads, commute/writes), and each method writes only slots of the clause it is about "
-             "(commute/own-clause) - where the conditions fail, a bounded witness search "
-             "on the real code decides between a violation with input and a bounded stand-in.",
+             "(commute/own-clause) - where the conditions fail, mutual rejection (each method raises on every path under "
+             "the other's post-condition: both orders are rejected) is proved by symbolic execution of the real bodies "
+             "with z3; otherwise a witness search on the real code (both call orders, then the same completion of the "
+             "statement) decides between a violation with input and a bounded stand-in (none on the current tree).",
         note=TRUST + "Bounded stand-ins (commutation cases where Bernstein's conditions fail and no order dependence "
-                     "was found) are labelled bounded and not counted as proved; 15 genuine order dependences are "
+                     "was found) would be labelled bounded and not counted as proved (none on the current tree); 19 genuine order dependences are "
                      "known findings. Acceptance by SQLite's parser is not covered.",
         design="§5 C13"),
     "C16": dict(
